@@ -556,3 +556,17 @@ func badMutInputAtomicMemo(b *memoBox, h *hdr) *hdr {
 }
 
 func okMutInputAtomicLoadOnly(b *memoBox) int64 { return b.n.Load() }
+
+// structs of library types are tracked per allocation site: one client address in one net.UDPAddr does not make
+// every net.UDPAddr of the program suspect
+func okTaintOtherAddr(c net.Conn) {
+	tainted := &net.UDPAddr{IP: net.ParseIP(c.RemoteAddr().String())}
+	_ = tainted
+	clean := &net.UDPAddr{IP: net.IPv4zero, Port: 1}
+	sink(clean)
+}
+
+func badTaintBuiltAddr(c net.Conn) {
+	a := &net.UDPAddr{IP: net.ParseIP(c.RemoteAddr().String())}
+	sink(a)
+}
